@@ -1108,7 +1108,7 @@ class Interp:
         if isinstance(base, Builtin) and base.name in ("dict", "str", "bytes", "int", "list", "tuple", "set", "frozenset", "float"):
             import builtins as _b
             return PyMethod(getattr(_b, base.name), attr)  # dict.fromkeys, str.join, bytes.fromhex, int.from_bytes ...
-        if isinstance(base, (str, bytes, list, tuple, dict, set, frozenset, bytearray, USet, _collections.deque)):
+        if isinstance(base, (str, bytes, list, tuple, dict, set, frozenset, bytearray, USet, _collections.deque, memoryview)):
             if isinstance(base, _collections.deque) and attr == "maxlen":
                 return base.maxlen
             return PyMethod(base, attr)
@@ -1908,7 +1908,7 @@ BUILTINS = {
     "int", "float", "len", "isinstance", "max", "min", "str", "bool", "range", "list",
     "tuple", "dict", "bytes", "abs", "enumerate", "zip", "sorted", "hex", "round", "set",
     "Exception", "ValueError", "RuntimeError", "OverflowError", "getattr", "setattr", "hasattr", "callable", "dir",
-    "any", "all", "next", "iter", "frozenset", "sum", "reversed", "map", "filter", "print", "divmod", "bytearray", "repr", "ord", "chr",
+    "any", "all", "next", "iter", "frozenset", "sum", "reversed", "map", "filter", "print", "divmod", "bytearray", "repr", "ord", "chr", "memoryview",
     "TypeError", "KeyError", "IndexError", "AttributeError", "NotImplementedError", "StopIteration", "property", "open",
 }
 
@@ -2053,6 +2053,15 @@ class Builtin:
             if any(isinstance(a, Opaque) for a in args):
                 return Opaque(n)
             return USet(list(args[0]) if args else [])
+        if n == "memoryview":
+            v = args[0] if args else None
+            if isinstance(v, (bytes, bytearray, memoryview)):
+                return memoryview(v)
+            if hasattr(v, "cells"):
+                return v          # a view of symbolic bytes reads like the bytes themselves
+            if isinstance(v, Opaque):
+                return Opaque("memoryview")
+            raise PyRaise(f"TypeError: memoryview: a bytes-like object is required, not '{type(v).__name__}'", node)
         if n in ("sum", "divmod", "bytearray", "repr", "ord", "chr"):
             if any(isinstance(a, Opaque) for a in args):
                 return Opaque(n)
@@ -2117,7 +2126,7 @@ class Builtin:
             fmt, data = args
             if hasattr(data, "unpack"):
                 return data.unpack(fmt)
-            if isinstance(data, (bytes, bytearray)):
+            if isinstance(data, (bytes, bytearray, memoryview)):
                 try:
                     return _struct.unpack(fmt, data)
                 except _struct.error as e:
